@@ -33,13 +33,12 @@ class Channel {
     Channel (Scheduler &sch) : sch_(sch) { }
 
     bool operator >> (T &out) {
-        if (queue_.empty()) {   //! 如果队列里没有，则等待
+        //! 如果队列里没有，则等待。被唤醒后若数据已被别的协程取走，要重新排队
+        while (queue_.empty()) {
             token_.push(sch_.getToken());
-            do {
-                sch_.wait();
-                if (sch_.isCanceled())
-                    return false;
-            } while (queue_.empty());
+            sch_.wait();
+            if (sch_.isCanceled())
+                return false;
         }
 
         out = queue_.front();
@@ -48,12 +47,14 @@ class Channel {
     }
 
     Channel& operator << (const T &value) {
-        if (queue_.empty() && !token_.empty()) {
+        queue_.push(value);
+        //! every value wakes one waiter (skipping waiters that are gone or already woken)
+        while (!token_.empty()) {
             auto t = token_.front();
             token_.pop();
-            sch_.resume(t);
+            if (sch_.resume(t))
+                break;
         }
-        queue_.push(value);
         return *this;
     }
 
